@@ -32,7 +32,7 @@ COMPONENTS = {"real": ["ECAgent.Collectors.AgentCollector.collect", "FileCollect
                        "overflow/finalisation; crash drops buffers)", "mutator systems and collect() bodies are harness code"]}
 PROBES = ["empty_record_suppressed", "collector_off_window", "removed_by_higher_priority_same_step",
           "added_by_higher_priority_same_step", "changed_after_collector_turn", "composite_used", "value_zero_recorded",
-          "crash_at_flush_boundary", "crash_mid_flush", "real_file", "composite_shared_dict", "empty_string_record", "empty_collection", "empty_flush",
+          "crash_at_flush_boundary", "crash_mid_flush", "real_file", "composite_shared_dict", "empty_string_record", "environment_replaced", "empty_collection", "empty_flush",
           "preexisting_content", "two_file_collectors", "buffer_overflow_mid_flush"]
 TECHNIQUE = "deterministic simulation: population changing on a seeded schedule inside timesteps vs a replaying reference; simulated disk with crash points and the conservation invariant file + held = collected"
 LEVEL_TEXT = ("Seeded search over population-change schedules, collector windows and disk behaviour; after every timestep the "
@@ -91,8 +91,11 @@ def gen_agent_arm(rng, tier):
              "composite": rng.choice([None, None, "dict", "empty", "none", "shared", "shared"]), "ts": rng.random() < 0.4}
         c.update(gen_window(rng, steps))
         collectors.append(c)
+    between = script(rng.randint(0, 3))
+    if rng.random() < 0.25:
+        between.append({"t": rng.randint(0, steps - 1), "op": "swap_env"})
     return {"arm": "agent", "agents0": agents0, "mutators": mutators, "collectors": collectors,
-            "between": script(rng.randint(0, 3)), "steps": steps, "order": rng.choice(["mc", "cm", "mix"])}
+            "between": between, "steps": steps, "order": rng.choice(["mc", "cm", "mix"])}
 
 
 def gen_file_arm(rng, tier):
@@ -160,6 +163,17 @@ class AgentWorld:
     def apply_real(self, act):
         env = self.model.environment
         ids = list(env.agents)
+        if act["op"] == "swap_env":
+            # the model gets a NEW environment object holding the same agents (Model.set_environment)
+            from ECAgent.Core import Environment
+            new = Environment(self.model)
+            for aid in ids:
+                a = env.agents[aid]
+                env.remove_agent(aid)
+                new.add_agent(a)
+            self.model.set_environment(new)
+            self.ctx.probe("environment_replaced")
+            return
         if act["op"] == "add":
             if act["id"] in env.agents:
                 return
